@@ -28,7 +28,7 @@ type op struct {
 	Target string   `json:"target,omitempty"` // update/remove: stored name; flip: which
 	Name   string   `json:"name,omitempty"`
 	IDs    []string `json:"ids,omitempty"`
-	Own    bool     `json:"own,omitempty"` // own settings + own blocked services + upstream
+	Own    int      `json:"own,omitempty"` // bit 0: own settings (+ own upstream), bit 1: own blocked services
 }
 
 var (
@@ -71,7 +71,7 @@ func alphabet(quick bool) []op {
 	for i := 0; i < nflips; i++ {
 		ops = append(ops, op{Kind: "flip", Target: fmt.Sprint(i)})
 	}
-	owns := []bool{false, true}
+	owns := []int{0, 1, 2, 3}
 	if quick {
 		owns = owns[:1] // in quick, own settings are only switched on by updates
 	}
@@ -82,7 +82,11 @@ func alphabet(quick bool) []op {
 			}
 		}
 	}
-	for _, own := range []bool{false, true} {
+	updOwns := []int{0, 1, 2, 3}
+	if quick {
+		updOwns = []int{0, 1, 2} // none, own settings only, own blocked services only
+	}
+	for _, own := range updOwns {
 		for _, s := range sets {
 			for _, t := range names {
 				for _, n := range names {
@@ -99,7 +103,7 @@ func alphabet(quick bool) []op {
 type refClient struct {
 	Name string
 	IDs  []string // canonical identifier strings
-	Own  bool
+	Own  int
 }
 
 type model struct {
@@ -268,15 +272,17 @@ func mkPersistent(o op, uidN int) *client.Persistent {
 	if err := p.SetIDs(o.IDs); err != nil {
 		panic(err)
 	}
-	if o.Own {
+	if o.Own&1 != 0 {
 		p.UseOwnSettings = true
 		p.FilteringEnabled = false
 		p.SafeBrowsingEnabled = true
 		p.ParentalEnabled = true
 		p.SafeSearchConf.Enabled = true
+		p.Upstreams = []string{"1.1.1.1"}
+	}
+	if o.Own&2 != 0 {
 		p.UseOwnBlockedServices = true
 		p.BlockedServices = &filtering.BlockedServices{IDs: []string{"svc_" + o.Name}}
-		p.Upstreams = []string{"1.1.1.1"}
 	}
 	return p
 }
@@ -426,7 +432,7 @@ func exec(hist []op) lib.Step {
 			got := p.IDs()
 			sort.Strings(want)
 			sort.Strings(got)
-			if strings.Join(want, ",") != strings.Join(got, ",") || p.UseOwnSettings != m.clients[i].Own {
+			if strings.Join(want, ",") != strings.Join(got, ",") || p.UseOwnSettings != (m.clients[i].Own&1 != 0) || p.UseOwnBlockedServices != (m.clients[i].Own&2 != 0) {
 				return fail("findbyname:content", "FindByName(%q) = ids %v own=%v, reference ids %v own=%v", n, got, p.UseOwnSettings, want, m.clients[i].Own)
 			}
 		}
@@ -445,8 +451,10 @@ func exec(hist []op) lib.Step {
 				rc := m.clients[m.byName(setts.ClientName)]
 				wantFE, wantSB, wantPar, wantSS := true, false, false, false
 				var wantBS []string
-				if rc.Own {
+				if rc.Own&1 != 0 {
 					wantFE, wantSB, wantPar, wantSS = false, true, true, true
+				}
+				if rc.Own&2 != 0 {
 					wantBS = []string{"svc_" + rc.Name}
 				}
 				var gotBS []string
@@ -454,7 +462,7 @@ func exec(hist []op) lib.Step {
 					gotBS = setts.BlockedServices.IDs
 				}
 				if setts.FilteringEnabled != wantFE || setts.SafeBrowsingEnabled != wantSB || setts.ParentalEnabled != wantPar || setts.SafeSearchEnabled != wantSS || strings.Join(gotBS, ",") != strings.Join(wantBS, ",") {
-					return fail("settings", "client %q (own=%v): got filtering=%v sb=%v parental=%v safesearch=%v services=%v", rc.Name, rc.Own, setts.FilteringEnabled, setts.SafeBrowsingEnabled, setts.ParentalEnabled, setts.SafeSearchEnabled, gotBS)
+					return fail("settings", "client %q (own flags=%d): got filtering=%v sb=%v parental=%v safesearch=%v services=%v", rc.Name, rc.Own, setts.FilteringEnabled, setts.SafeBrowsingEnabled, setts.ParentalEnabled, setts.SafeSearchEnabled, gotBS)
 				}
 			} else if !setts.FilteringEnabled || setts.SafeBrowsingEnabled || setts.BlockedServices != nil {
 				return fail("settings:none", "no client found but settings changed: %+v", setts)
@@ -465,7 +473,7 @@ func exec(hist []op) lib.Step {
 			uc := s.CustomUpstreamConfig(cid, addr)
 			wantU := false
 			for n := range expU {
-				if m.clients[m.byName(n)].Own {
+				if m.clients[m.byName(n)].Own&1 != 0 {
 					wantU = true
 				}
 			}
@@ -474,7 +482,7 @@ func exec(hist []op) lib.Step {
 				first := true
 				var v bool
 				for n := range expU {
-					o := m.clients[m.byName(n)].Own
+					o := m.clients[m.byName(n)].Own&1 != 0
 					if first {
 						v, first = o, false
 					} else if o != v {
